@@ -71,7 +71,18 @@ def main(argv=None):
     modules = P['modules']
     for m in modules:
         __import__(m)
-    unit_names = P['units']
+    unit_names = list(P['units'])
+    # every unit whose clauses are tagged with this property belongs to its check, listed or not
+    for m in getattr(props, 'ALL_MODULES', []):
+        if m not in modules:
+            try:
+                __import__(m)
+                modules = modules + [m]
+            except Exception:
+                pass
+    for un, u in sorted(harness.UNITS.items()):
+        if a.pid in u.props and un not in unit_names:
+            unit_names.append(un)
     if a.units:
         unit_names = [u for u in unit_names if u in a.units.split(',')]
     os.environ.setdefault('PYVC_UNIVERSE', '4' if a.tier == 'quick' else '5')
